@@ -294,6 +294,7 @@ tpt_msg_send(tpt_p dst, tpt_p src, uint32_t flags,
 	msg_queue = tpt_get_msg_queue(dst);
 	if (NULL == msg_queue)
 		return (EINVAL);
+	LIBLCB_VERIF_POINT("send.src", src, dst, 0);
 	LIBLCB_VERIF_POINT("send.enter", dst, udata, flags);
 	if (0 != (TP_MSG_F_SELF_DIRECT & flags)) {
 		if (NULL == src) {
